@@ -8,7 +8,9 @@
 From Coq Require Import ZArith String List Bool Lia ZifyBool.
 From PushModel Require Import Base.Sx Base.Machine Base.ListOps Base.F32 Model.Item Model.GraphT Model.State
   Model.InstrBase Model.IScalar Model.ICode Model.IVector Model.IList Model.IIo Model.IGraph
-  Model.Registry Model.Interp Model.RegistryVec Model.RegistryListIo Model.RegistryGraph Model.RegistryAll Model.Cli
+  Model.Topology Model.INeighbor Model.RandomGen Model.IRand
+  Model.Registry Model.Interp Model.RegistryVec Model.RegistryListIo Model.RegistryGraph Model.RegistryNbr
+  Model.RegistryRand Model.RegistryAll Model.Cli
   Spec.DetSpec Proofs.NameProofs Proofs.DeterminismItems Proofs.DeterminismInv Proofs.DeterminismWalk
   Proofs.Determinism.
 Import ListNotations.
@@ -193,7 +195,7 @@ Section Define.
     destruct s2; reflexivity.
   Qed.
 
-  Ltac sim_entry :=
+  Ltac sim_entry0 :=
     first
       [ apply define_entry_sim; lens_tac
       | apply definition_entry_sim
@@ -202,10 +204,19 @@ Section Define.
               | apply purep_obl; intro; obl_tac
               | sem_obl_tac ] ].
 
-  Theorem full_table_sim : Forall entry_sim full_table.
+  (* the RAND family reads the binding table (CODE.RAND, NAME.RANDBOUNDNAME) and is
+     outside the comparison anyway: its entries owe nothing *)
+  Ltac sim_entry :=
+    cbn [fst];
+    first
+      [ let H := fresh in intros H; vm_compute in H; discriminate H
+      | intros _; sim_entry0 ].
+
+
+  Theorem full_table_sim : Forall (fun e => lit_in rand_names (fst e) = false -> entry_sim e) full_table.
   Proof.
-    unfold full_table, tbl_core, tbl_boolean, tbl_integer, tbl_float, tbl_name, tbl_code, tbl_exec, tbl_index,
-      tbl_bvec, tbl_ivec, tbl_fvec, vec_stack_family, stack_family, tbl_list, tbl_io, tbl_graph.
+    unfold full_table, base_table, tbl_core, tbl_boolean, tbl_integer, tbl_float, tbl_name, tbl_code, tbl_exec, tbl_index,
+      tbl_bvec, tbl_ivec, tbl_fvec, vec_stack_family, stack_family, tbl_list, tbl_io, tbl_graph, tbl_nbr, tbl_rand.
     cbn [map all_ginstr ginstr_name ginstr_sem].
     walk_with sim_entry.
   Qed.
@@ -213,7 +224,11 @@ End Define.
 
 (* ---------------------------------------------------------------------- *)
 (* the interpreter step and the run *)
-Definition cli_qi : str -> bool := name_in name_synth_names.
+(* what the compared programs must not mention: the name-synthesising instructions and the RAND family *)
+Definition cli_excluded : list string := name_synth_names ++ rand_names.
+Definition cli_qi : str -> bool := name_in cli_excluded.
+Lemma cli_except_ok : except_ok cli_qi.
+Proof. unfold except_ok, closure_exceptions. repeat constructor. Qed.
 Lemma cli_rearm_ok : rearm_ok cli_qi.
 Proof. unfold rearm_ok, rearm_names. repeat constructor. Qed.
 Lemma cli_synth_ok : synth_ok cli_qi is_bin.
@@ -243,7 +258,10 @@ Section CliRun.
     - cbn. unfold step_out; cbn. repeat split. exists bc. destruct sl; cbn in *. split; [reflexivity|exact Ag].
     - destruct (lookup full_registry n) as [f|] eqn:L.
       + destruct (lookup_in_named _ _ _ L) as (k & Hin & ->).
-        pose proof (proj1 (Forall_forall _ _) full_table_sim _ Hin p w (set_bind (set_exec sl r) bc) (set_exec sl r)) as S.
+        assert (NR : lit_in rand_names k = false).
+        { apply lit_in_name_in. unfold iok in Ht. cbn [occurs] in Ht. unfold cli_qi, cli_excluded in Ht.
+          rewrite name_in_app in Ht. now apply orb_false_iff in Ht as [_ Ht]. }
+        pose proof (proj1 (Forall_forall _ _) full_table_sim _ Hin NR p w (set_bind (set_exec sl r) bc) (set_exec sl r)) as S.
         cbn [snd] in S.
         assert (B : bin_sim (set_bind (set_exec sl r) bc) (set_exec sl r)) by (exists bc; auto).
         assert (N : nok is_bin (st_name (set_exec sl r))) by (destruct sl; exact In).
@@ -273,7 +291,7 @@ Section CliRun.
     destruct (step p full_registry w sl) as [[[f1 w1] s1]| |] eqn:E1; cbn [rbind] in H; try discriminate.
     destruct (step p full_registry w sc) as [[[f2 w2] s2]| |] eqn:E2; cbn in S; try tauto.
     destruct S as (S1 & S2 & S3). cbn in S1, S2, S3. subst f2 w2.
-    pose proof (step_keeps _ _ cli_rearm_ok cli_synth_ok _ _ _ _ _ _ I E1) as I1.
+    pose proof (step_keeps _ _ cli_rearm_ok cli_synth_ok cli_except_ok _ _ _ _ _ _ I E1) as I1.
     destruct f1.
     - inversion H; subst. exists 1%nat, s2. cbn [steps]. rewrite E2. cbn. auto.
     - destruct (_ <? _)%Z; [discriminate|].
@@ -292,7 +310,7 @@ Section CliRun.
      table, and the tables agree on every name but BIN. *)
   Theorem cli_equals_library_lemma : forall clock w arg0 s0 w' sl,
     mentions_name_b [ "BIN" ] s0 = false ->
-    mentions_b name_synth_names s0 = false ->
+    mentions_b cli_excluded s0 = false ->
     run p full_registry clock w s0 = Ok (NoErrors, w', sl) ->
     exists k sc,
       cli_watch p full_registry k w arg0 s0 = Ok (true, w', sc) /\
